@@ -4,6 +4,16 @@ import json, os, sys
 HERE = os.path.dirname(os.path.dirname(os.path.abspath(__file__)))
 
 CLAIMED = {
+ "C04": dict(
+    technique="deterministic simulation: seeded fault plans at converter/hook/input-protocol seams, containment oracle, virtual step clock watchdog",
+    level="slice: error containment, body-not-entered and bounded termination under injected faults (leaf converter x 11 exception classes, transient faults, n-th call hook faults, n-th call input-protocol faults) across every API kind and wrapper; seeded exploration with fault-free control per plan, minimised fresh-interpreter replay",
+    note="totality over the whole value domain is NOT claimed (only a pool of hostile scalars rides along for the step watchdog); faults are placed below the top level only; non-Exception conditions are not injected (DESIGN 3.4, 6)",
+    ref="3.4"),
+ "C10": dict(
+    technique="deterministic simulation: seeded leaf + structural fault injection, fail-fast vs collecting replicas, injected fault set as ground truth",
+    level="seeded exploration of (declaration, input, leaf fault set, dropped/excess keys, max_errors) plans executed fail-fast, collecting and fault-free; the failing items are injected, verdict/value/reported-set clauses of the statement checked exactly",
+    note="item failure = fail-fast parse of the item alone under the same faults; names compared as a set; samples, does not enumerate (DESIGN 3.10)",
+    ref="3.10"),
  "C11": dict(
     technique="deterministic simulation: seeded fault-injection at the converter seam, metamorphic reference, delta-debugged replay",
     level="seeded exploration of (declaration, policy triple, input, injected fault set) plans; the failing elements are injected, so the oracle's ground truth is the fault plan itself; every violation is minimised and replayed in a fresh interpreter",
